@@ -36,7 +36,14 @@ def mini_dag(noise_dim):
         log_g_std=Hyperparameter(0.01),
         log_g=PopulationLatentVariable(Normal("log_g_mean", "log_g_std")),
     )
-    _DAGS[noise_dim] = VariablesDAG.from_dict(specs)
+    try:
+        _DAGS[noise_dim] = VariablesDAG.from_dict(specs)
+    except Exception as e:  # noqa: BLE001
+        # the observation model may depend on the time-points (data variable `t` of every model): provide it then
+        if "'t'" not in str(e):
+            raise
+        specs.update(t=DataVariable())
+        _DAGS[noise_dim] = VariablesDAG.from_dict(specs)
     return _DAGS[noise_dim]
 
 
@@ -72,6 +79,15 @@ def run_case(xs, mold, burn, cells, fill=7.5):
     for noise_dim in (1, n_f):
         st = State(mini_dag(noise_dim))
         st["y"] = WeightedTensor(y.clone(), w.clone())
+        if "t" in st.dag:
+            # ages of the visits; a visit is real as soon as the cell table lists it with an observed or missing entry
+            # (class "c" everywhere = padding)
+            real = torch.zeros((n_i, n_v), dtype=torch.bool)
+            for c in cells:
+                if c["c"] in ("a", "b") or c.get("real", True) and c["c"] != "c":
+                    real[c["i"] - 1, c["v"] - 1] = True
+            real |= w.any(dim=2)
+            st["t"] = WeightedTensor(torch.arange(1.0, n_v + 1).repeat(n_i, 1) + 60.0, real)
         st["model"] = m.clone()
         st["tau"] = torch.tensor([[float(x)] for x in xs])
         st["tau_mean"] = torch.tensor([float(mold)])
